@@ -17,10 +17,12 @@ def tie(rep, tier, rng, model_ok):
     q = tier == "quick"
     a = simprops.corpus_cases("C09") + [simgen.gen_cancel(rng) for _ in range(500 if q else 15000)]
     b = [simgen.gen_sched(rng) for _ in range(250 if q else 6000)]
+    c = [simgen.gen_cancel_same_time(rng) for _ in range(400 if q else 10000)]
     simprops.run(rep, "C09", model_ok,
                  [("cancel", a, (1, 4) if q else (1, 2, 4, 8, 16), ORACLES, nontrivial),
+                  ("cancel-same-time", c, (1, 4) if q else (1, 2, 4, 8, 16), ORACLES, nontrivial),
                   ("sched-1thread", b, (1,), ORACLES, nontrivial)],
-                 "keyed one-shot/periodic events; cancel before the due step (driver), by an earlier same-time event of the same model and origin (handler, before and after the victim in scheduling order), after firing, one of many same-deadline events, with step and step_until; exact log comparison + driver-event oracle (cancelled never fires, others unaffected). non-trivial = a cancel occurs")
+                 "keyed one-shot/periodic events; cancel before the due step (driver), by an earlier same-time event of the same model and origin (handler, before and after the victim in scheduling order), after firing, one of many same-deadline events, with step and step_until; 3-7 driver actions due at one time mixing model-input events and EventSource events (keyed, periodic), the cancelled ones at any position of the group; exact log comparison + driver-event oracle (cancelled never fires, others unaffected). non-trivial = a cancel occurs")
 
 
 def replay(rep, path, model_ok):
